@@ -124,7 +124,17 @@ func (s *Server) shutdown() {
 		v.Close()
 	}
 	for _, v := range s.active {
-		v.Close()
+		// Take the names off delListener while waiting for the Listener to stop: the
+		// channel holds 16, the Listeners beyond that would block sending theirs and
+		// never stop.
+		go v.Close()
+		for w := true; w; {
+			select {
+			case <-v.ch:
+				w = false
+			case <-s.delListener:
+			}
+		}
 	}
 	// Every Listener has sent its name by now (Close waits for that), but a name
 	// may have been received before its Listener was added: waiting for one name
